@@ -26,10 +26,23 @@ pub struct Collector {
     pub loops: Vec<(usize, usize, usize)>, // span start, span end, body `{` offset
     pub closures: Vec<(usize, usize)>,
     pub closure_nodes: Vec<ClosureInfo>,
+    pub method_calls: Vec<(String, Vec<(usize, usize)>)>, // method name, argument spans
+    pub macros: Vec<(String, (usize, usize))>,
+    pub lets: Vec<(String, (usize, usize))>, // `let NAME = <init>`: name, init span
 }
 
 impl<'ast> Visit<'ast> for Collector {
     fn visit_stmt(&mut self, s: &'ast syn::Stmt) {
+        if let syn::Stmt::Local(l) = s {
+            let name = match &l.pat {
+                syn::Pat::Ident(pi) => Some(pi.ident.to_string()),
+                syn::Pat::Type(pt) => match &*pt.pat { syn::Pat::Ident(pi) => Some(pi.ident.to_string()), _ => None },
+                _ => None,
+            };
+            if let (Some(n), Some(init)) = (name, &l.init) {
+                self.lets.push((n, br(init.expr.span())));
+            }
+        }
         self.stmts.push(br(s.span()));
         syn::visit::visit_stmt(self, s);
     }
@@ -47,6 +60,10 @@ impl<'ast> Visit<'ast> for Collector {
         let (s, en) = br(e.span());
         self.loops.push((s, en, br(e.body.span()).0));
         syn::visit::visit_expr_loop(self, e);
+    }
+    fn visit_expr_method_call(&mut self, e: &'ast syn::ExprMethodCall) {
+        self.method_calls.push((e.method.to_string(), e.args.iter().map(|a| br(a.span())).collect()));
+        syn::visit::visit_expr_method_call(self, e);
     }
     fn visit_expr_closure(&mut self, e: &'ast syn::ExprClosure) {
         let sp = br(e.span());
